@@ -142,7 +142,7 @@ impl PosOracle for C06 {
 pub const RULE: &str = "states = every position of the bounded trees, en-passant / castling / promotion / 3-man families and children; each judged: Display gives six single-space separated fields; placement, side and castling fields equal the independent writer's byte for byte; clocks are integers; en-passant field = passed-over square when a legal capture exists, '-' when the last move was no double push, either otherwise; from_str(own text) == board; from_str(standard writer's text, ep square after every double push) == board; BoardBuilder Display/FromStr reproduces every square, side, rights and en-passant for the board's builder and (on every 16th judged state) for 18 variants with overridden side / en-passant file. distinct_nontrivial = judged states right after a double push or with partial castling rights";
 
 pub fn run(tier: Tier) -> i32 {
-    let mut plan = standard_plan(tier, 2);
+    let mut plan = standard_plan(tier, 4);
     if tier == Tier::Quick {
         // FEN text depends on rights, side and en-passant state, not on 3-man geometry: keep the
         // pawn sets without children and drop the other 3-man sets from the quick tier
